@@ -40,7 +40,9 @@ def gen_links(rng, d):
     for rel, dd in dirs:
         holders = list(dd["recipes"]) + ([dd["readme"]] if dd["readme"] else [])
         for h in holders:
-            for i in range(rng.randint(0, 3)):
+            # now and then a document whose only local references are raw HTML with upper-case tag and attribute names
+            raw_only = rng.random() < 0.25
+            for i in range(rng.randint(0, 3) if not raw_only else rng.randint(1, 2)):
                 kind, t = rng.choice(targets)
                 form = rng.choice(["abs", "rel", "rel"])
                 if form == "abs":
@@ -53,6 +55,8 @@ def gen_links(rng, d):
                     url += "/"
                 url += rng.choice(["", "", "#frag", "?q=1"])
                 lab = ("I%d" if kind == "asset" and rng.random() < 0.5 else "L%d") % i
+                if raw_only:
+                    lab = ("J%d" if lab.startswith("I") else "H%d") % i
                 n[0] += 1
                 h["links"].append((lab + "x" + str(n[0]), url, (kind, t)))
 
@@ -160,12 +164,12 @@ def crawl(tree, M, src, out):
             target = gen_site.resolve(f, url)
             if target is None:
                 sch = urlsplit(url).scheme
-                if tag in ("a", "link", "img") and sch not in ("http", "https", "mailto", "data", "ftp") and not text.strip()[:1] in ("L", "I"):
+                if tag in ("a", "link", "img") and sch not in ("http", "https", "mailto", "data", "ftp") and not text.strip()[:1] in gen_site.AUTHORED:
                     out_v.append(("C14:generated-link-reads-as-external-url", "page %s: link %r has scheme %r" % (f, url, sch)))
                 continue
             is_dir_like = target.endswith("/")
             if target not in files:
-                why = "generated" if not text.strip()[:1] in ("L", "I") else "authored"
+                why = "generated" if not text.strip()[:1] in gen_site.AUTHORED else "authored"
                 sig = "C14:dead-link:%s" % why
                 if why == "generated" and any(c in f + url for c in "#?%"):
                     sig = "C14:dead-link:generated:url-significant-character-in-name"
@@ -372,7 +376,7 @@ def check_inert(d, M):
                     if label.strip() and not (label in ok_labels or label.isdigit() or any(label == gen_title for gen_title in ok_labels)):
                         from recipe_grid.static_site.recipe_directory import dirname_to_title
                         names = {dirname_to_title(dd["name"]) for _, dd in gen_site.walk(d)} | {dirname_to_title(src.name)}
-                        if label not in names and not label.lstrip().startswith(("for ", "serv", "to ", "makes")):
+                        if label not in names and not label.lstrip().lower().startswith(("for ", "serv", "to ", "makes")):
                             out.append(("C10:list-entry-text-differs", "%s: link text %r is no title of the site" % (f, label)))
         return out
     finally:
